@@ -52,12 +52,19 @@ func vEqStrs(a, b []string) bool {
 func VerifC19Crash() {
 	vFSReset()
 	fname := vFSPath("pprof/settings.json")
-	// previous contents: one saved configuration, written by the real code
-	if err := setConfig(fname, vMustURL("http://x/?config=old&f=oldfocus")); err != nil {
-		vAssert(false, "C19.crash.setup: saving the initial configuration failed")
-		return
+	// previous contents: one saved configuration, written by the real code - or
+	// nothing at all (the very first save is the one that is interrupted)
+	fresh := vChoice("fresh", 2) == 1
+	if !fresh {
+		if err := setConfig(fname, vMustURL("http://x/?config=old&f=oldfocus")); err != nil {
+			vAssert(false, "C19.crash.setup: saving the initial configuration failed")
+			return
+		}
 	}
 	op := vChoice("op", 3)
+	if fresh {
+		vAssume(op == 0)
+	}
 	mode := vChoice("mode", 3) // 0: crash at a micro-step, 1: a write step fails (ENOSPC), 2: no fault
 	switch mode {
 	case 0:
@@ -102,10 +109,16 @@ func VerifC19Crash() {
 		return
 	}
 	oldState := vEqStrs(names, []string{"old"}) && vEqStrs(focus, []string{"oldfocus"})
+	if fresh {
+		oldState = len(names) == 0
+	}
 	var newState bool
 	switch op {
 	case 0:
 		newState = vEqStrs(names, []string{"old", "new"}) && vEqStrs(focus, []string{"oldfocus", "newfocus"})
+		if fresh {
+			newState = vEqStrs(names, []string{"new"}) && vEqStrs(focus, []string{"newfocus"})
+		}
 	case 1:
 		newState = vEqStrs(names, []string{"old"}) && vEqStrs(focus, []string{"changed"})
 	case 2:
